@@ -305,10 +305,14 @@ def validate_shell_reader():
 
 
 # ---------------------------------------------------------------- Q10d log paths = what `gwf logs` opens
-def _q10d(mode, err):
+TWD = [ROOT, ROOT + "/sub dir", "/vfs/elsewhere/data"]
+
+
+def _q10d(mode, err, twd):
     be = q.SHARD["be"]
-    if not q.in_range(mode, 3):
+    if not (q.in_range(mode, 3) and q.in_range(twd, len(TWD))):
         return q.SKIP
+    target_wd = q.pick(TWD, twd)
     log_mode = q.pick(["full", "merged", "none"], mode) if be == "slurm" else "full"
     if be != "slurm" and mode != 0:
         return q.SKIP
@@ -316,7 +320,7 @@ def _q10d(mode, err):
         w = World(be)
         w.install()
     try:
-        t = Target(name="My.Target_1", inputs=[], outputs=[], options={}, working_dir=ROOT, spec="true")
+        t = Target(name="My.Target_1", inputs=[], outputs=[], options={}, working_dir=target_wd, spec="true")
         t.options = {"cores": 1, "memory": "1g", "queue": "normal"} if be == "lsf" else {"cores": 1, "memory": "1g"}
         script = _ops(be, log_mode).compile_script(t)
         ds = shell.directives(be, script)
@@ -349,11 +353,11 @@ def _q10d(mode, err):
         w.uninstall()
 
 
-def q10d(mode: int, err: bool) -> str:
+def q10d(mode: int, err: bool, twd: int) -> str:
     """
     post: _ == ""
     """
-    return q.run(_q10d, (mode, err))
+    return q.run(_q10d, (mode, err, twd))
 
 
 # ---------------------------------------------------------------- Q10e clean_logs
@@ -423,7 +427,7 @@ QUERIES = [
      "timeout": {"quick": 400, "thorough": 600},
      "bound": "directory name of 1..2 (quick) / 1..3 (thorough) characters over the alphabet %r (those accepted by target validation)" % (ALPHA,)},
     {"name": "Q10d", "fn": q10d, "shards": [{"be": b} for b in BES], "timeout": 300,
-     "bound": "log modes full/merged/none (Slurm), full (SGE, LSF); stdout and stderr; target name with dot and underscore"},
+     "bound": "log modes full/merged/none (Slurm), full (SGE, LSF); stdout and stderr; target name with dot and underscore; target working directory = project directory, a sub-directory with a blank, or a directory outside the project"},
     {"name": "Q10e", "fn": q10e, "shards": {"quick": [{"tset": k, "nlogs": 5} for k in range(len(TARGETSETS))], "thorough": [{"tset": k, "nlogs": 6} for k in range(len(TARGETSETS))]},
      "timeout": {"quick": 600, "thorough": 1800},
      "bound": "any subset of 5 (quick) / 6 (thorough) log base names (each with .stdout and .stderr) incl. dotted names that are prefixes of each other, 4 target sets, setting on/off, dry-run on/off"},
